@@ -132,7 +132,7 @@ type Ctx struct {
 }
 
 func NewCtx(prop, tier string, seed uint64, m *Model) *Ctx {
-	return &Ctx{Prop: prop, Tier: tier, Seed: seed, Rng: &Rng{s: seed*0x9E3779B97F4A7C15 + 0x1234567}, Model: m,
+	return &Ctx{Prop: prop, Tier: tier, Seed: seed, Rng: (&Rng{s: (seed ^ 0x5DEECE66D) * 0xD6E8FEB86659FD93}).Fork(), Model: m,
 		Thorough: tier == "thorough",
 		distinct: map[[8]byte]struct{}{}, Dist: map[string]int{}, findSeen: map[string]bool{}, Extra: map[string]interface{}{}}
 }
